@@ -76,15 +76,46 @@ def to_floats(a):
     return [[float(v) for v in row] for row in np.asarray(a).tolist()]
 
 
-def build_values(vals, as_int, kind):
+def build_values(vals, as_int, kind, vdt=None):
     """the `values` / `zones_ids` argument as the caller would write it"""
     vs = [int(v) for v in vals] if as_int else [float(v) for v in vals]
     if kind == 'ndarray':
-        return np.array(vs, dtype='int64' if as_int else 'float64')
+        return np.array(vs, dtype=vdt or ('int64' if as_int else 'float64'))
     return tuple(vs) if kind == 'tuple' else list(vs)
 
 
-LAYOUTS = ['C', 'F', 'T', 'strided', 'readonly', 'nonnative']
+def values_arg(case):
+    return build_values(case['values'], case['as_int'], case['kind'], case.get('vals_dtype'))
+
+
+def to_vals(a, exact=False):
+    """cells as python numbers: floats, or (exact=True, integer rasters) python ints so that ids above 2**53 stay exact"""
+    if exact and np.asarray(a).dtype.kind in 'iu':
+        return [[int(v) for v in row] for row in np.asarray(a).tolist()]
+    return to_floats(a)
+
+
+def num_list(vals, exact):
+    return [int(v) for v in vals] if exact else [float(v) for v in vals]
+
+
+def name_kw(case):
+    return {'name': case['name']} if case.get('name') is not None else {}
+
+
+def snapshot(da):
+    return (np.array(da.data, copy=True), {str(k): np.array(v.values, copy=True) for k, v in da.coords.items()},
+            dict(da.attrs), da.name, tuple(da.dims), da.dtype)
+
+
+def unchanged(da, snap):
+    data, coords, attrs, name, dims, dtype = snap
+    same = da.dtype == dtype and np.array_equal(np.asarray(da.data), data, equal_nan=(dtype.kind == 'f')) and \
+        dict(da.attrs) == attrs and da.name == name and tuple(da.dims) == dims and set(map(str, da.coords)) == set(coords)
+    return same and all(np.array_equal(np.asarray(da.coords[k].values), v) for k, v in coords.items())
+
+
+LAYOUTS = ['C', 'F', 'T', 'strided', 'readonly', 'nonnative', 'reversed']
 
 
 def apply_layout(a, layout):
@@ -98,6 +129,8 @@ def apply_layout(a, layout):
         view = base[1:2 * a.shape[0]:2, a.shape[1]:0:-1]
         view[...] = a
         return view
+    if layout == 'reversed':                # a[::-1, ::-1] view (negative strides on both axes)
+        return np.ascontiguousarray(a[::-1, ::-1])[::-1, ::-1]
     if layout == 'readonly':
         a = a.copy()
         a.setflags(write=False)
@@ -107,10 +140,10 @@ def apply_layout(a, layout):
     return a
 
 
-def build_raster(data, dtype, ys, xs, attrs=None, aux=True, dims=('y', 'x'), layout='C'):
+def build_raster(data, dtype, ys, xs, attrs=None, aux=True, dims=('y', 'x'), layout='C', exact=False):
     """2-D raster with index coordinates along both dims and (aux=True) the non-index coordinates real rasters carry:
     scalar spatial_ref / band, a 2-D lon, and 1-D auxiliary coordinates along each dim; aux='nocoords': no coordinates at all."""
-    a = np.array(data, dtype='float64')
+    a = np.array(data, dtype=dtype) if exact else np.array(data, dtype='float64')
     if a.ndim != 2:
         a = a.reshape(len(data), len(xs))
     a = apply_layout(a.astype(dtype), layout)
@@ -130,7 +163,7 @@ def build_raster(data, dtype, ys, xs, attrs=None, aux=True, dims=('y', 'x'), lay
 
 
 def raster_args(case):
-    return dict(aux=case.get('aux', True), dims=tuple(case.get('dims', ('y', 'x'))), layout=case.get('layout', 'C'))
+    return dict(aux=case.get('aux', True), dims=tuple(case.get('dims', ('y', 'x'))), layout=case.get('layout', 'C'), exact=bool(case.get('exact')))
 
 
 def listed(v, vals, nan_aware):
@@ -156,9 +189,9 @@ def coords_of(res, dim):
 def check_window_oracle(ctx, what, case, res, src, win, key=None):
     """property text: `res` must be the contiguous slice src[win] — shape, cells, coordinates, attrs, dims."""
     t, b, l, r = win
-    sdata = to_floats(src.data)
+    sdata = to_vals(src.data, case.get('exact'))
     exp = [row[l:r + 1] for row in sdata[t:b + 1]]
-    got = to_floats(res.data) if res.ndim == 2 else None
+    got = to_vals(res.data, case.get('exact')) if res.ndim == 2 else None
     exp_shape = (max(0, b - t + 1), max(0, r - l + 1))
 
     def bad(msg, **kw):
@@ -197,15 +230,16 @@ def run_trim(ctx, zonal, case):
     """returns (model_line, expectation tuple for the correspondence) or None"""
     vals = case['values']
     src = build_raster(case['data'], case['dtype'], case['ys'], case['xs'], **raster_args(case))
-    data = to_floats(src.data)
+    data = to_vals(src.data, case.get('exact'))
+    snap = snapshot(src) if case.get('sequence') else None
     try:
-        kw = {'name': case['name']} if case.get('name') else {}
+        kw = name_kw(case)
         if vals is None:
             excl = [NAN]
             res = zonal.trim(src, **kw)
         else:
-            excl = [float(v) for v in vals]
-            res = zonal.trim(src, values=build_values(vals, case['as_int'], case['kind']), **kw)
+            excl = num_list(vals, case.get('exact'))
+            res = zonal.trim(src, values=values_arg(case), **kw)
     except Exception as e:
         if case.get('layout') == 'nonnative' and type(e).__name__ == 'TypingError':
             ctx.count('layout/nonnative-rejected-by-numba')       # loud refusal of a byte-swapped array: outside the domain
@@ -213,8 +247,21 @@ def run_trim(ctx, zonal, case):
         ctx.violation('oracle', 'trim(values=%r) raised %s: %s' % (vals, type(e).__name__, str(e)[:200]), case,
                       key=KEY_EMPTY if (vals is not None and len(vals) == 0 and case['kind'] in ('tuple', 'list')) else None)
         return None
-    if res.name != (case.get('name') or 'trim'):
+    if res.name != (case['name'] if case.get('name') is not None else 'trim'):
         ctx.violation('oracle', 'trim(name=%r): result is named %r' % (case.get('name'), res.name), case)
+    if snap is not None:
+        # call sequences: the input is untouched, the same call again gives the same raster, and trimming the
+        # already trimmed raster (a raster derived by slicing) changes nothing
+        kwv = {} if vals is None else {'values': values_arg(case)}
+        if not unchanged(src, snap):
+            ctx.violation('oracle', 'trim(values=%r) modified its input raster (data/coords/attrs/name)' % (vals,), case)
+        again = zonal.trim(src, **kwv, **kw)
+        twice = zonal.trim(res, **kwv, **kw) if res.size else res
+        if not again.identical(res):
+            ctx.violation('oracle', 'trim(values=%r): the same call repeated gives a different raster' % (vals,), case)
+        if not twice.identical(res):
+            ctx.violation('oracle', 'trim(values=%r) of the already trimmed raster is not that raster: shape %r vs %r' % (
+                vals, tuple(twice.shape), tuple(res.shape)), case)
     # oracle: the smallest window containing every cell whose value is not in the excluded set (NaN excluded when listed)
     keep = [[not listed(v, excl, True) for v in row] for row in data]
     win = span(keep)
@@ -227,7 +274,7 @@ def run_trim(ctx, zonal, case):
         check_window_oracle(ctx, 'trim(values=%r, %s)' % (vals, case['dtype']), case, res, src, win, key=key)
     bounds = None
     try:
-        arg = (NAN,) if vals is None else build_values(vals, case['as_int'], case['kind'])
+        arg = (NAN,) if vals is None else values_arg(case)
         bounds = [int(v) for v in zonal._trim(src.data, arg)]
     except Exception:
         bounds = None
@@ -246,13 +293,25 @@ def run_crop(ctx, zonal, case):
     vdata = [row[:vshape[1]] for row in case['vdata'][:vshape[0]]]
     values = build_raster(vdata, case['vdtype'], vy, vx, attrs={'layer': 'values', 'k': 3},
                           **dict(raster_args(case), layout=case.get('vlayout', 'C')))
-    zdata = to_floats(zones.data)
-    fids = [float(v) for v in ids]
+    zdata = to_vals(zones.data, case.get('exact'))
+    fids = num_list(ids, case.get('exact'))
+    snaps = (snapshot(zones), snapshot(values)) if case.get('sequence') else None
     try:
-        kw = {'name': case['name']} if case.get('name') else {}
-        res = zonal.crop(zones, values, build_values(ids, case['as_int'], case['kind']), **kw)
-        if res.name != (case.get('name') or 'crop'):
+        kw = name_kw(case)
+        res = zonal.crop(zones, values, values_arg(case), **kw)
+        if res.name != (case['name'] if case.get('name') is not None else 'crop'):
             ctx.violation('oracle', 'crop(name=%r): result is named %r' % (case.get('name'), res.name), case)
+        if snaps is not None:
+            if not unchanged(zones, snaps[0]) or not unchanged(values, snaps[1]):
+                ctx.violation('oracle', 'crop(zones_ids=%r) modified one of its input rasters' % (ids,), case)
+            if not zonal.crop(zones, values, values_arg(case), **kw).identical(res):
+                ctx.violation('oracle', 'crop(zones_ids=%r): the same call repeated gives a different raster' % (ids,), case)
+            if tuple(zones.shape) == tuple(values.shape) and res.size:
+                # rasters derived by slicing both inputs to the returned window: cropping them again changes nothing
+                b = [int(v) for v in zonal._crop(zones.data, values_arg(case))]
+                zw = zones[b[0]:b[1] + 1, b[2]:b[3] + 1]
+                if not zonal.crop(zw, res, values_arg(case), **kw).identical(res):
+                    ctx.violation('oracle', 'crop(zones_ids=%r) of the already cropped rasters is not the cropped raster' % (ids,), case)
     except Exception as e:
         if case.get('layout') == 'nonnative' and type(e).__name__ == 'TypingError':
             ctx.count('layout/nonnative-rejected-by-numba')
@@ -268,7 +327,7 @@ def run_crop(ctx, zonal, case):
         check_window_oracle(ctx, 'crop(zones_ids=%r, %s)' % (ids, case['dtype']), case, res, values, cw)
     bounds = None
     try:
-        bounds = [int(v) for v in zonal._crop(zones.data, build_values(ids, case['as_int'], case['kind']))]
+        bounds = [int(v) for v in zonal._crop(zones.data, values_arg(case))]
     except Exception:
         bounds = None
     vd = to_floats(values.data)
@@ -310,7 +369,7 @@ def compare_with_model(ctx, pending):
             ctx.violation('correspondence', '%s: bounds (top,bottom,left,right): implementation %r vs model %r' % (what, bounds, mb),
                           dict(case, impl_bounds=bounds, model_bounds=mb))
             continue
-        got = to_floats(res.data) if res.ndim == 2 else []
+        got = to_vals(res.data, case.get('exact')) if res.ndim == 2 else []
         gy, gx = coords_of(res, res.dims[0]), coords_of(res, res.dims[1])
         if case.get('aux') == 'nocoords':      # no labels: xarray reports positions 0..n-1; compare the lengths only
             mys, mxs, gy, gx = [0] * len(mys), [0] * len(mxs), [0] * len(gy), [0] * len(gx)
@@ -577,7 +636,7 @@ def gen_layouts(ctx, fn, count):
         combos = [(([1, 3], True, 'tuple'), 'int64'), (([2.0], False, 'tuple'), 'float64')]
     if not ctx.quick():
         combos += [((c[0]), d) for c in combos[:2] for d in ('float32', 'int32', 'uint8')]
-    lays = LAYOUTS[1:4] if ctx.quick() else LAYOUTS[1:]
+    lays = LAYOUTS[1:4] + ['reversed', 'readonly'] if ctx.quick() else LAYOUTS[1:]
     for i in range(count):
         (vals, as_int, kind), dtype = combos[i % len(combos)]
         layout = lays[(i // len(combos)) % len(lays)]
@@ -592,6 +651,108 @@ def gen_layouts(ctx, fn, count):
         if fn == 'crop':
             case['vlayout'] = rng.choice(['C', 'F', 'strided'])
         yield 'layout/%s/%s' % (layout, fam), case
+
+
+def ulp_neighbours(v, dtype):
+    """v rounded to dtype and its two neighbours in that dtype, as python floats"""
+    t = np.dtype(dtype).type
+    c = t(v)
+    return float(c), float(np.nextafter(c, t(np.inf))), float(np.nextafter(c, t(-np.inf)))
+
+
+def themed_case(rng, fn, i, vals, as_int, kind, dtype, inside, outside, rows=None, cols=None, **extra):
+    borders = BORDER_SUBSETS[(i * 5 + 3) % len(BORDER_SUBSETS)]
+    minr = 3 - ('top' in borders) - ('bottom' in borders)
+    minc = 3 - ('left' in borders) - ('right' in borders)
+    rows = rows or rng.randint(minr, 7)
+    cols = cols or rng.randint(minc, 7)
+    data = layout_raster(rng, rows, cols, borders, inside, outside) if inside and outside else None
+    if data is None:
+        pool = (inside or []) + (outside or [])
+        data = [[rng.choice(pool) for _ in range(cols)] for _ in range(rows)]
+    case = dict(fn=fn, dtype=dtype, data=data, values=vals, as_int=as_int, kind=kind, aux=(i % 3 != 0),
+                ys=rand_coords(rng, rows), xs=rand_coords(rng, cols), dims=list(DIMS[i % len(DIMS)]))
+    case.update(extra)
+    if fn == 'crop':
+        case.setdefault('vdtype', 'float64')
+        case['vdata'] = [[float(rng.randint(0, 99)) for _ in range(cols)] for _ in range(rows)]
+    return case
+
+
+def gen_themes(ctx, fn, reps):
+    """appended audit streams: one-ulp neighbours of a listed number in the raster's own dtype, tiny / huge magnitudes, numbers the
+    raster dtype cannot hold (no wrap-around), ids beyond 2**31 / 2**53 kept exact, value lists as arrays of another dtype, absent
+    ids, name='', far / large / negative coordinates, degenerate rasters, and call sequences (input untouched, repeated call,
+    the call on the already-processed raster)."""
+    rng = ctx.rng
+    trim = fn == 'trim'
+
+    def io(listed_pool, other_pool):        # (inside, outside) pools of layout_raster
+        return (other_pool, listed_pool) if trim else (listed_pool, other_pool)
+    i = 0
+    for _ in range(reps):
+        # -- one ulp around a listed number, in the cells' own dtype; tiny and huge magnitudes
+        for dtype in ('float32', 'float64'):
+            for v0 in (1.0, 0.1, 16777216.0, -9999.0, 2.0 ** -100, 2.0 ** 100, 3.4028234663852886e38, 2.0 ** -30):
+                i += 1
+                v, up, dn = ulp_neighbours(v0, dtype)
+                ins, outs = io([v], [up, dn])
+                yield 'ulp/%s' % dtype, themed_case(rng, fn, i, [v], False, 'tuple', dtype, ins, outs, sequence=(i % 4 == 0))
+        # -- listed numbers the raster dtype cannot hold must match nothing (no wrap-around), limits of the dtype
+        for dtype, cells, lists in (('uint8', [0.0, 255.0, 1.0], ([256], [-1], [255, 256], [511])),
+                                    ('int8', [-128.0, 127.0, 0.0, -1.0], ([128], [-129], [127, 256], [-128]))):
+            for vals in lists:
+                i += 1
+                inn = [c for c in cells if listed(c, [float(x) for x in vals], False)]
+                out = [c for c in cells if c not in inn]
+                ins, outs = io(inn, out)
+                yield 'dtype-limits/%s' % dtype, themed_case(rng, fn, i, vals, True, 'tuple', dtype, ins, outs)
+        # -- ids beyond 2**31 and 2**53 in int64 rasters (exact python ints end to end)
+        big = [2 ** 31, 2 ** 31 + 1, 2 ** 40, 2 ** 53, 2 ** 53 + 1, 2 ** 62, -2 ** 53 - 1, 7]
+        for vals in ([2 ** 53], [2 ** 31 + 1, 2 ** 53 + 1], [2 ** 62, 7]):
+            i += 1
+            inn = [c for c in big if c in vals]
+            out = [c for c in big if c not in vals]
+            ins, outs = io(inn, out)
+            yield 'big-ids/int64', themed_case(rng, fn, i, vals, True, 'tuple', 'int64', ins, outs, exact=True,
+                                               sequence=True, **({'vdtype': 'int64'} if not trim else {}))
+        # -- the list given as an array of another dtype; absent ids; name=''
+        for vdt, vals, dtype in (('int32', [0, 3], 'int64'), ('float32', [0.0, 2.5], 'float64'), ('uint8', [1, 200], 'int32')):
+            i += 1
+            cells = [0.0, 1.0, 2.5 if dtype == 'float64' else 2.0, 3.0, 7.0]
+            inn = [c for c in cells if listed(c, [float(x) for x in vals], False)]
+            ins, outs = io(inn, [c for c in cells if c not in inn])
+            yield 'list-dtype/%s' % vdt, themed_case(rng, fn, i, vals, vdt != 'float32', 'ndarray', dtype, ins, outs,
+                                                      vals_dtype=vdt, name='' if i % 2 else 'w')
+        i += 1
+        ins, outs = io([1.0], [0.0, 2.0, 4.0])
+        yield 'absent-ids', themed_case(rng, fn, i, [99, 1, -5], True, 'list', 'int32', ins, outs, name='', sequence=True)
+        # -- coordinates: huge spacing far from the origin, negative, tiny spacing, different on both axes
+        for (y0, dy, x0, dx) in ((5e6, -1e6, -3e6, 2.5e5), (-0.001, 0.0001220703125, 1e9, 1.0), (-80.0, 0.5, 179.5, 0.25)):
+            i += 1
+            rows, cols = rng.randint(2, 6), rng.randint(2, 6)
+            ins, outs = io([0.0], [1.0, 2.0])
+            c = themed_case(rng, fn, i, [0], True, 'tuple', 'float64', ins, outs, rows=rows, cols=cols, sequence=(i % 2 == 0))
+            c['ys'] = [y0 + k * dy for k in range(rows)]
+            c['xs'] = [x0 + k * dx for k in range(cols)]
+            yield 'coords/far-large-negative', c
+        # -- degenerate rasters: 1x1, 1xN, Nx1, 2x2, a single kept/selected cell, all cells equal
+        for rows, cols, single in ((1, 1, True), (1, 6, False), (6, 1, False), (2, 2, False), (5, 6, True), (4, 4, None)):
+            i += 1
+            ins, outs = io([0.0], [1.0])
+            c = themed_case(rng, fn, i, [0], True, 'tuple', 'int64' if i % 2 else 'float64', ins, outs, rows=rows, cols=cols,
+                            sequence=True)
+            if single is not None:
+                keepv, fill = (1.0, 0.0) if trim else (0.0, 1.0)
+                c['data'] = [[fill] * cols for _ in range(rows)]
+                if single:
+                    c['data'][rng.randrange(rows)][rng.randrange(cols)] = keepv
+                else:
+                    for row in c['data']:
+                        row[rng.randrange(cols)] = keepv
+            else:
+                c['data'] = [[(1.0 if trim else 0.0)] * cols for _ in range(rows)]      # all equal, everything kept/selected
+            yield 'degenerate/%dx%d' % (rows, cols), c
 
 
 def gen_exhaustive(ctx, max_cells=9):
@@ -638,6 +799,8 @@ def run(ctx):
     # appended after the older streams so that their rng draws do not shift
     run_cases(ctx, gen_layouts(ctx, 'trim', 97 if ctx.quick() else 1500))
     run_cases(ctx, gen_layouts(ctx, 'crop', 97 if ctx.quick() else 1500))
+    run_cases(ctx, gen_themes(ctx, 'trim', 1 if ctx.quick() else 12))
+    run_cases(ctx, gen_themes(ctx, 'crop', 1 if ctx.quick() else 12))
     ctx.exhaustive = False
 
 
@@ -656,7 +819,8 @@ def search(ctx):
 def replay_case(ctx, case):
     zonal = _impl()
     case = {k: v for k, v in case.items() if k in ('fn', 'dtype', 'data', 'values', 'as_int', 'kind', 'ys', 'xs',
-                                                   'vdtype', 'vdata', 'vshape', 'aux', 'dims', 'name', 'layout', 'vlayout')}
+                                                   'vdtype', 'vdata', 'vshape', 'aux', 'dims', 'name', 'layout', 'vlayout',
+                                                   'exact', 'sequence', 'vals_dtype')}
 
     def unjson(v):
         return {'nan': NAN, 'inf': float('inf'), '-inf': float('-inf')}.get(v, v) if isinstance(v, str) else v
